@@ -143,7 +143,14 @@ impl<'a, N: Analysis<LArith>> Ev<'a, N> {
 pub fn gen_arith(r: &mut Rng, depth: usize, scope: &mut Vec<String>, fresh: &mut usize, shadow: bool) -> String {
     if depth == 0 || r.below(4) == 0 {
         if !scope.is_empty() && r.below(3) != 0 {
-            format!("(var ${})", scope[r.below(scope.len())])
+            let v = format!("(var ${})", scope[r.below(scope.len())]);
+            // unit-decorated occurrences next to plain ones: the unit rules merge the class of the variable with a composite class
+            // (either of the two may be the one that survives)
+            match r.below(10) {
+                0 => format!("(mul {v} 1)"),
+                1 => format!("(add {v} 0)"),
+                _ => v,
+            }
         } else {
             format!("{}", r.below(5))
         }
@@ -301,8 +308,13 @@ thread_local! {
     pub static DIRECTED: std::cell::RefCell<Option<(String, Vec<String>, String, usize, bool)>> = std::cell::RefCell::new(None);
 }
 
+/// substitution-focused lane: the start term is a `let` whose body mentions the bound variable plainly and unit-decorated, the rule
+/// set always contains the substitution rule and the unit rules (which merge the variable's class with composite classes)
+pub static SUBST_FOCUS: std::sync::atomic::AtomicBool = std::sync::atomic::AtomicBool::new(false);
+
 pub fn run_case(rng: &mut Rng, bad: bool) -> CaseOut {
     let mut out = CaseOut::default();
+    let subst_focus = SUBST_FOCUS.load(std::sync::atomic::Ordering::Relaxed);
     let directed = DIRECTED.with(|d| d.borrow().clone());
     let m = if let Some(d) = &directed { if d.2 == "M2" { M2 } else { M1 } } else if rng.chance(2, 3) { M1 } else { M2 };
     let mut scope = vec!["p".to_string(), "q".to_string()];
@@ -310,6 +322,16 @@ pub fn run_case(rng: &mut Rng, bad: bool) -> CaseOut {
     let d0 = rng.range(2, 4);
     let shadow = rng.chance(1, 3);
     let mut t = gen_arith(rng, d0, &mut scope, &mut fresh, shadow);
+    if subst_focus {
+        scope.push("bz".to_string());
+        let body = gen_arith(rng, d0.min(3), &mut scope, &mut fresh, shadow);
+        scope.pop();
+        let arg = gen_arith(rng, 1, &mut scope, &mut fresh, shadow);
+        t = format!("(let $bz (add (var $bz) {body}) {arg})");
+        if rng.chance(1, 2) {
+            t = format!("(add {t} (mul (mul (var $p) 1) (add (mul (var $p) 1) 2)))");
+        }
+    }
     if let Some(d) = &directed {
         t = d.0.clone();
     }
@@ -320,6 +342,16 @@ pub fn run_case(rng: &mut Rng, bad: bool) -> CaseOut {
     idx.truncate(k);
     for i in idx {
         chosen.push(pool[i].clone());
+    }
+    if subst_focus {
+        chosen.truncate(3);
+        for n in ["let-subst", "mul-1", "add-0"] {
+            if !chosen.iter().any(|r| r.name == n) {
+                if let Some(r) = pool.iter().find(|r| r.name == n) {
+                    chosen.push(r.clone());
+                }
+            }
+        }
     }
     if bad {
         chosen.push(bad_rule());
@@ -432,6 +464,7 @@ pub fn run_case(rng: &mut Rng, bad: bool) -> CaseOut {
 
 pub fn run(args: &Args, rep: &mut Rep) {
     let bad = args.param_u("bad", 0) == 1;
+    SUBST_FOCUS.store(args.param_u("subst", 0) == 1, std::sync::atomic::Ordering::Relaxed);
     // directed reproduction: term=... rules=a,b model=M1|M2 iters=n runner=0|1
     let dir = args.params.get("term").map(|t| (t.clone(), args.param_s("rules", "").split(',').map(|x| x.to_string()).collect::<Vec<_>>(), args.param_s("model", "M1"), args.param_u("iters", 2) as usize, args.param_u("runner", 0) == 1));
     drive(args, rep, move |rng, _| {
